@@ -177,7 +177,11 @@ func (r *Run) run(pd *PropDef) int {
 		}
 		r.L.LoadSec = time.Since(t0).Seconds()
 		// every spec file is loaded for every property: contracts of other properties are used modularly
-		if err := r.L.LoadSpecs(filepath.Join(r.Verif, "specs"), []string{"common", "build", "consts", "ops", "opsbv"}); err != nil {
+		specDir := filepath.Join(r.Verif, "specs")
+		if d := os.Getenv("GOVC_SPECS"); d != "" {
+			specDir = d // development only: spec functions being drafted
+		}
+		if err := r.L.LoadSpecs(specDir, []string{"common", "build", "consts", "ops", "opsbv"}); err != nil {
 			r.engineError("specs: %v", err)
 			return 2
 		}
@@ -785,7 +789,13 @@ func selectLits(p *packages.Package, fd *ast.FuncDecl, sel string) []*ast.FuncLi
 	var out []*ast.FuncLit
 	switch {
 	case strings.HasPrefix(sel, "calls:"):
+		// calls:<f>[#k]: the outermost function literals that call f directly (the k-th of them, in source order)
 		want := strings.TrimPrefix(sel, "calls:")
+		callsK, callsN := 0, 0
+		if i := strings.Index(want, "#"); i >= 0 {
+			fmt.Sscanf(want[i+1:], "%d", &callsK)
+			want = want[:i]
+		}
 		var visit func(n ast.Node, top bool)
 		directCalls := func(l *ast.FuncLit) bool {
 			found := false
@@ -813,7 +823,10 @@ func selectLits(p *packages.Package, fd *ast.FuncDecl, sel string) []*ast.FuncLi
 			ast.Inspect(n, func(m ast.Node) bool {
 				if l, ok := m.(*ast.FuncLit); ok {
 					if directCalls(l) {
-						out = append(out, l)
+						callsN++
+						if callsK == 0 || callsN == callsK {
+							out = append(out, l)
+						}
 						return false
 					}
 				}
